@@ -438,7 +438,7 @@ def _chain_post(mixed):
 _CHAIN_USES = dict(_SIMPLE_USES)
 _CHAIN_USES.update({"ExpressionLowerer.lower_expr": lower_sub, "IRBuilder.decider_multi": builder_multi, "opaque.get_expr_type": get_expr_type,
                     "SemanticAnalyzer.get_expr_type": get_expr_type, "fn:get_signal_type_name": sig_type_name,
-                    "ExpressionLowerer._collect_comparison_chain": "inline", "ExpressionLowerer._is_simple_operand": "inline",
+                    "ExpressionLowerer._collect_comparison_chain": "inline", "ExpressionLowerer._is_simple_operand": "inline", "ExpressionLowerer._has_wildcard_operand": "inline",
                     "ExpressionLowerer._create_folded_decider": "inline"})
 for _op in ("&&", "||"):
     _other = "||" if _op == "&&" else "&&"
@@ -449,12 +449,18 @@ for _op in ("&&", "||"):
         "(c1 OTHER c2) OP c3": (_logic_node(_op, _logic_node(_other, _cmp_leaf(1), _cmp_leaf(2)), _cmp_leaf(3)), True),
         "c1 OP (c2 OTHER c3)": (_logic_node(_op, _cmp_leaf(1), _logic_node(_other, _cmp_leaf(2), _cmp_leaf(3))), True),
     }
+    # a comparison of any(bundle) / all(bundle) must not be folded next to another row: the wildcard would range over that row's
+    # signals (declined = each comparison keeps its own decider, with the separation of contracts.c02 IRBuilder.decider)
+    _wild_leaf = ty.TObj("BinaryOp", only=("BinaryOp",), ftypes=(("op", ty.Str), ("left", ty.TObj("Expr", only=("BundleAllExpr", "BundleAnyExpr"))), ("right", _IDENT)))
+    _wild_leaf_r = ty.TObj("BinaryOp", only=("BinaryOp",), ftypes=(("op", ty.Str), ("left", _IDENT), ("right", ty.TObj("Expr", only=("BundleAllExpr", "BundleAnyExpr")))))
+    _shapes["wild OP c2"] = (_logic_node(_op, _wild_leaf, _cmp_leaf(2)), True)
+    _shapes["c1 OP (c2 OP wild-on-the-right)"] = (_logic_node(_op, _cmp_leaf(1), _logic_node(_op, _cmp_leaf(2), _wild_leaf_r)), True)
     for _sn, (_t, _mixed) in _shapes.items():
         CONTRACTS.append(Contract(
             qualname=EL + "_try_fold_logical_chain",
             params={"self": ty.TObj("ExpressionLowerer", only=("ExpressionLowerer",)), "expr": _t},
             requires=[("leaf operators are comparisons", _leaf_ops_are_comparisons)],
-            ensures=[("a folded chain denotes the && / || of its comparisons; a mixed chain is declined", _chain_post(_mixed))],
+            ensures=[("a folded chain denotes the && / || of its comparisons; a mixed chain, or a chain with an any() / all() comparison, is declined", _chain_post(_mixed))],
             uses=_CHAIN_USES,
             dynamic_types={"self": {"ir_builder": ty.TObj("IRBuilder", only=("IRBuilder",)), "parent": ty.TOpaque("parent"),
                                     "semantic": ty.TObj("SemanticAnalyzer", only=("SemanticAnalyzer",))}},
